@@ -27,7 +27,14 @@ type Parser struct {
 	function uint8
 	wbit     bool
 	strict   bool // immutable after NewParser
+	depth    int  // current list nesting while parsing an item tree (guards the recursion)
 }
+
+// maxNestingDepth caps list nesting in SML text. parseItem/parseList recurse once per level, so
+// without a cap a few megabytes of "<L<L<L..." exhaust the goroutine stack, which is a fatal
+// runtime error (not a recoverable panic). The cap is far above anything a SECS-II message can
+// carry on the wire (secs2.MaxListDepth) yet keeps the recursion to a few megabytes of stack.
+const maxNestingDepth = 10000
 
 // NewParser returns a Parser configured by opts (default: non-strict).
 func NewParser(opts ...ParserOption) *Parser {
@@ -126,6 +133,7 @@ func (p *Parser) initInput(input string) {
 	p.data = input
 	p.len = len(input)
 	p.pos = 0
+	p.depth = 0
 }
 
 // errf builds a *ParseError at the parser's current offset.
@@ -361,6 +369,13 @@ func (p *Parser) parseItem() (secs2.Item, error) {
 }
 
 func (p *Parser) parseList(size int) (secs2.Item, error) {
+	p.depth++
+	defer func() { p.depth-- }()
+
+	if p.depth > maxNestingDepth {
+		return nil, p.errf("list nesting exceeds the maximum depth of %d", maxNestingDepth)
+	}
+
 	childItems := make([]secs2.Item, 0, p.capHint(size))
 
 	for {
